@@ -75,7 +75,10 @@ Definition check_c02_qc (c : c02case) : bool :=
   let net := mk_net_Qc (c_net c) in
   let T := Q2Qc (c_period c) in
   match simulate QcO KQc T net (map op_in (c_ops c)) with
-  | None => negb (i_ok c)
+  | None =>
+      (* the implementation aborted in its last recorded operation: the model must fail exactly there *)
+      negb (i_ok c)
+      && match simulate QcO KQc T net (map op_in (removelast (c_ops c))) with Some _ => true | None => false end
   | Some st =>
       let rs := map (map this) (rates_by_period st) in
       i_ok c
